@@ -332,8 +332,15 @@ def _system(ctx, cfg):
         w = box["w"]
         w.current = vals.get("chain")
         ok = vals.get("len") == 0 and all(vals.get("mean:" + nm) == 0.0 and vals.get("var:" + nm) == 0.0 for nm in names)
+        ch, user, ow = vals.get("chain"), box.get("user"), box.get("overwrite")
+        if user is None:
+            start_ok = ch is None
+        elif ow:
+            start_ok = ch is user
+        else:
+            start_ok = isinstance(ch, Chain) and ch.cloned_from is user and ch is not user
         return [("every observable's running mean / variance and the shared count start at 0", ok),
-                ("default start is None", vals.get("chain") is None)]
+                ("start: caller's chains are cloned unless overwrite=True; default start is None", start_ok)]
 
     def clauses(i, n):
         w, accs = box["w"], box["accs"]
@@ -350,13 +357,22 @@ def _system(ctx, cfg):
     f, rew = A.load(System.statistics, {0: spec}, vc, name="System.statistics")
     ctx.rewritten = rew
 
-    def run():
+    def run(form="default-start"):
         ns = vc.fresh_int("num_samples", 1)
         nch = vc.fresh_int("num_chains", 0)
         burn, steps = vc.fresh_int("burn_in", 0), vc.fresh_int("steps", 0)
         w = World(vc, burn, steps)
         box["w"] = w
-        nc = ITE(nch != 0, ITE(nch < ns, nch, ns), ns)
+        if form == "default-start":
+            nc = ITE(nch != 0, ITE(nch < ns, nch, ns), ns)
+            kw = {}
+            box["user"], box["overwrite"] = None, None
+        else:
+            rows = vc.fresh_int("rows", 1)
+            user = Chain(rows, "user")
+            nc = rows
+            kw = {"initial_state": user, "overwrite": form.endswith("True")}
+            box["user"], box["overwrite"] = user, kw["overwrite"]
         w.nc = nc
         accs = {}
         for nm in names:
@@ -378,7 +394,7 @@ def _system(ctx, cfg):
                 return d
         system = System(Obs("A"), Obs("B"))
         f.__globals__["_update_statistics"] = _mk_update_stub(vc, accs, lambda avg_b: owner.get(id(avg_b), "?"), lambda: w.nc)
-        res = f(system, w, ns, num_chains=nch, burn_in=burn, steps=steps)
+        res = f(system, w, ns, num_chains=nch, burn_in=burn, steps=steps, **kw)
         T = (ns + nc - 1) // nc
         for nm in names:
             acc = accs[nm]
@@ -393,6 +409,8 @@ def _system(ctx, cfg):
     ctx.holds("System.statistics/loop-carried state found (per-observable mean / variance, count, chains)",
               spec.template is not None and {"len", "chain", "mean:A", "var:B"} <= {r for t in spec.template.values() for r, _v, _p in A._tmpl_walk(t, None)}, str(spec.template))
     vc.explore(run, "System.statistics")
+    for form in ("initial_state overwrite=False", "initial_state overwrite=True"):
+        vc.explore(lambda form=form: run(form), "System.statistics " + form)
     vc.flush()
     ctx.holds("exploration/paths > 0", vc.paths > 0)
     # System.statistics_from_samples: per observable, unchanged
